@@ -2,14 +2,18 @@
 from ekw import ctrl_check
 
 PROPERTY = "C02"
-LEVEL_TEXT = ("Lean theorems over the small-step system controller x abstract executors (Model/Ctrl.lean): in every reachable state, for every job, "
-              "cluster, admissible heuristic choice and event order/batching, each task is named by at most one task_sequence command (and exactly "
-              "one once its completion was seen), sent to a worker that exists, has nothing queued and satisfies the GPU requirement, with every "
-              "input already produced and present on the target host or in an outstanding transfer to it (all seven C02 monitors never fire; "
-              "InvAll); with non-atomic task bodies (Model/CtrlN.lean) every input of a computable or dispatched task has really been published "
-              "(c02_inputs_published). Worker side (Model/Worker.lean = runner/entrypoint.py wait loop): for every message interleaving the worker enters "
-              "execute_sequence only after a DatasetPublished notice for every required dataset (c02_worker_waits).")
-LEVEL_NOTE = ("modelled, not verified: scheduler/api.py initialize/plan, scheduler/assign.py build_assignment + the pops of _assignment_heuristic, controller/act.py act/flush_queues, controller/notify.py notify/consider_*, impl.run loop skeleton (Model/Ctrl.lean, one Lean function per Python function). Abstracted as an oracle argument validated for admissibility by the model and supplied from what the real run chose: which (idle worker, computable task) pairs the distance/overhead heuristics and host->component migration pick per round, and which `available` host is the transmit source; theorems quantify over all admissible choices. Executors are abstract (Env + the non-atomic layer Model/CtrlN.lean; SimBridge mirrors both): a dispatched task starts once its inputs are in its host's store and publishes its outputs in index order, one step per output, interleaved with everything else; transmit/fetch read the source store; purge is immediate. Hypothesis WF: tasks topologically numbered, inputs duplicate-free, >=1 output per task, requested outputs exist, worker ids distinct (the generator guarantees it). Worker model: availab_ds/missing_ds/waiting_ts bookkeeping of entrypoint(), driven in-process with fake zmq/Memory; `required` is computed by the harness as the code does.")
+LEVEL_TEXT = ("Lean theorems over the small-step system controller x abstract executors (Model/Ctrl.lean) and its extension by the control flow of assign() "
+              "(Model/Sched.lean): in every reachable state, for every job, cluster, admissible heuristic choice and event order/batching, each task is named by at "
+              "most one task_sequence command (exactly one once its completion was seen), sent to a worker that exists, is free and satisfies the GPU requirement, "
+              "with every input already produced and present on the target host or in an outstanding transfer to it (all C02 monitors never fire; InvAll). The GPU / "
+              "free-worker clauses are derived from the REAL mechanism, not from the validation of an oracle value: every (task, worker) pair the control flow of "
+              "assign_within_component/_assignment_heuristic can yield (GPU partition gpu_t/gpu_w, then cpu_t/cpu_w + idle gpu workers) is admissible, so the "
+              "validation in the model never rejects what the code produces (c02_assign_admissible, c02_filter_never_rejects, c02_dispatch_by_control_flow). 'Not "
+              "already busy' at full strength: a worker has at most one task in flight (c02_worker_single_flight); with non-atomic bodies an idle worker has nothing "
+              "queued AND no body running, and no second body ever starts on a worker (c02_idle_means_free_running, c02_no_second_body); every input of a computable "
+              "or dispatched task has really been published (c02_inputs_published). Worker side (Model/Worker.lean = runner/entrypoint.py wait loop): for every "
+              "message interleaving the worker enters execute_sequence only after a DatasetPublished notice for every required dataset (c02_worker_waits). ")
+LEVEL_NOTE = ("modelled, not verified: scheduler/api.py initialize/plan, scheduler/assign.py build_assignment + the pops of _assignment_heuristic, controller/act.py act/flush_queues, controller/notify.py notify/consider_*, impl.run loop skeleton (Model/Ctrl.lean, one Lean function per Python function). Abstracted as an oracle argument validated for admissibility by the model and supplied from what the real run chose: which (idle worker, computable task) pairs the distance/overhead heuristics and host->component migration pick per round, and which `available` host is the transmit source; theorems quantify over all admissible choices. Executors are abstract (Env + the non-atomic layer Model/CtrlN.lean; SimBridge mirrors both): a dispatched task starts once its inputs are in its host's store and publishes its outputs in index order, one step per output, interleaved with everything else; transmit/fetch read the source store; purge is immediate. Hypothesis WF: tasks topologically numbered, inputs duplicate-free, >=1 output per task, requested outputs exist, worker ids distinct (the generator guarantees it). Worker model: availab_ds/missing_ds/waiting_ts bookkeeping of entrypoint(), driven in-process with fake zmq/Memory; `required` is computed by the harness as the code does. Since the audit response: the (task, worker) pair is no longer only validated - theorems over the extended system (Model/Sched.lean) show that the modelled control flow of assign() yields admissible pairs only; SimBridge counts a started body as busy and starts one body per worker at a time; commands are compared with their publish sets. Not in any C02 model: the executor layer between Bridge and worker (fan-out of DatasetPublished/DatasetPurge, purge filter, CUDA_VISIBLE_DEVICES) and 'announcement implies bytes are in shm' (clause: never starts before the data ACTUALLY arrived) - sampled by C01's real-cluster runs, owned by the executor/worker layer.")
 TECHNIQUE = "Lean 4 inductive system invariant over a small-step transition system (controller micro-steps x adversarial executors) + worker wait-loop invariant; step-by-step state correspondence with the real controller (SimBridge) and the real worker entrypoint"
 LEAN_PROPS = ["EkwVerif.Props.C02"]
 LEAN_DRIVERS = ["Ctrl"]
